@@ -158,9 +158,9 @@ func runC15(c *sim.Ctx, t *testing.T) {
 	var ops []vfOp
 	for i := 0; i < nops; i++ {
 		mid := mids[c.Intn(len(mids), "opmid")]
-		k := c.Intn(10, "opkind")
+		k := c.Intn(11, "opkind")
 		switch {
-		case !exists[mid] && k < 6, k == 0:
+		case !exists[mid] && k < 6, k == 0, k == 4:
 			version := 1 + c.Intn(2, "version")
 			st := map[string]interface{}{"node": "start", "bs": map[string]interface{}{}}
 			if c.Bool("withlog") {
@@ -173,13 +173,28 @@ func runC15(c *sim.Ctx, t *testing.T) {
 			ops = append(ops, vfOp{kind: "create", mid: mid, msg: map[string]interface{}{"to": "captain", "update": map[string]interface{}{mid: m}}})
 			exists[mid] = true
 		case k == 1:
-			st := map[string]interface{}{"node": "start", "bs": map[string]interface{}{"log": []interface{}{map[string]interface{}{"id": fmt.Sprintf("reset%d", i)}}}}
+			// states come from a small pool, so a machine can return to exactly a state it was in before
+			st := map[string]interface{}{"node": "start", "bs": map[string]interface{}{"log": []interface{}{map[string]interface{}{"id": []string{"resetA", "resetB"}[c.Intn(2, "statepool")]}}}}
 			ops = append(ops, vfOp{kind: "state", mid: mid, msg: map[string]interface{}{"to": "captain", "update": map[string]interface{}{mid: map[string]interface{}{"state": st}}}})
 		case k == 2:
 			ops = append(ops, vfOp{kind: "spec", mid: mid, msg: map[string]interface{}{"to": "captain", "update": map[string]interface{}{mid: map[string]interface{}{"spec": map[string]interface{}{"inline": vfSpecJSON(1 + c.Intn(2, "version"))}}}}})
 		case k == 3:
 			ops = append(ops, vfOp{kind: "delete", mid: mid, msg: map[string]interface{}{"to": "captain", "delete": []interface{}{mid}}})
 			exists[mid] = false
+		case k == 6 && exists[mid]:
+			// within one processed message: a machine tells the captain to delete a
+			// machine and then to create it again (or the other way round)
+			other := mids[c.Intn(len(mids), "cascademid")]
+			del := map[string]interface{}{"id": fmt.Sprintf("c%dd", i), "to": "captain", "delete": []interface{}{other}}
+			mk := map[string]interface{}{"id": fmt.Sprintf("c%dc", i), "to": "captain", "update": map[string]interface{}{other: map[string]interface{}{"spec": map[string]interface{}{"inline": vfSpecJSON(1 + c.Intn(2, "version"))}}}}
+			seq := []interface{}{del, mk}
+			if c.Chance(1, 3, "createfirst") {
+				seq = []interface{}{mk, del}
+				exists[other] = false
+			} else {
+				exists[other] = true
+			}
+			ops = append(ops, vfOp{kind: "cascade", mid: mid, msg: map[string]interface{}{"to": mid, "emit": map[string]interface{}{mid: seq}}})
 		default:
 			ops = append(ops, vfOp{kind: "msg", msg: g.message(1)})
 		}
